@@ -150,4 +150,58 @@ theorem collectMerge_ok : MergerOk collectMerge := by
     simp only [tokensAt] at this
     simp [this]
 
+
+/-! #### the harness' own merger satisfies the contract -/
+
+theorem perm_insTok (t : Nat) (l : List Nat) : (insTok t l).Perm (t :: l) := by
+  induction l with
+  | nil => simp [insTok]
+  | cons x xs ih =>
+    simp only [insTok]
+    split
+    · exact List.Perm.refl _
+    · exact (List.Perm.cons x ih).trans (List.Perm.swap t x xs)
+
+theorem perm_sortNat (l : List Nat) : (sortNat l).Perm l := by
+  induction l with
+  | nil => simp [sortNat]
+  | cons x xs ih =>
+    simp only [sortNat, List.foldr_cons] at ih ⊢
+    exact (perm_insTok x _).trans (List.Perm.cons x ih)
+
+theorem mem_dedupNat (l : List Nat) : ∀ x, x ∈ dedupNat l ↔ x ∈ l := by
+  induction l with
+  | nil => intro x; simp [dedupNat]
+  | cons y ys ih =>
+    intro x
+    simp only [dedupNat, List.foldr_cons] at ih ⊢
+    split
+    · next hc =>
+      have hy : y ∈ ys := (ih y).mp (by simpa using hc)
+      rw [ih x]; simp only [List.mem_cons]
+      constructor
+      · exact Or.inr
+      · rintro (rfl | h)
+        · exact hy
+        · exact h
+    · simp only [List.mem_cons, ih x]
+
+theorem mergeContent_ok : MergerOk mergeContent := by
+  intro cs k
+  simp only [mergeContent, tokensAt, lookupKey_map_keys]
+  split
+  · simpa [tokensAt] using perm_sortNat (cs.flatMap (fun c => (lookupKey c k).getD []))
+  · next hk =>
+    have hk' : k ∉ cs.flatMap (fun c => c.map (·.1)) := by
+      intro hmem
+      exact hk ((perm_sortNat _).mem_iff.mpr ((mem_dedupNat _ k).mpr hmem))
+    have : cs.flatMap (fun c => tokensAt c k) = [] := by
+      rw [List.flatMap_eq_nil_iff]
+      intro c hc
+      apply tokensAt_of_not_key
+      intro hmem
+      exact hk' (List.mem_flatMap.mpr ⟨c, hc, hmem⟩)
+    simp only [tokensAt] at this
+    simp [this]
+
 end LinVerif.Lemmas.C02
